@@ -277,6 +277,13 @@ def eq_values(l, r):
     P = E.cur()
     if l is r and not isinstance(l, (SInt, SRat)):
         return True
+    if isinstance(l, V.SCoded) or isinstance(r, V.SCoded):
+        from . import interp
+        if isinstance(l, V.SCoded) and isinstance(r, V.SCoded) and l.spec.key() == r.spec.key():
+            return wrap_bool(l.code == r.code)
+        a = interp.materialize(l) if isinstance(l, V.SCoded) else l
+        b = interp.materialize(r) if isinstance(r, V.SCoded) else r
+        return eq_values(a, b)
     if isinstance(l, SObj) or isinstance(r, SObj):
         from . import interp
         return interp.obj_eq(l, r)
